@@ -1265,3 +1265,6 @@ package lorawan
 //@ func lemmaC11_sql_AES128Key
 //@   props C11
 //@   inlines (*AES128Key).Scan (AES128Key).Value
+//@ func lemmaC03_fopts_variant
+//@   props C03 C05
+//@   inlines (*PHYPayload).EncryptFOpts
